@@ -24,8 +24,19 @@ func traceOracle(prop string, res TraceResult) string {
 		}
 		return "class=panic " + res.Panic
 	}
+	if res.TimedOut {
+		if prop == "C25" {
+			return "class=hang " + res.Panic
+		}
+		return ""
+	}
 	if tr == nil {
 		return "class=panic no trace"
+	}
+	for side := 0; side < 2; side++ {
+		if tr.Car[side].Runaway {
+			return fmt.Sprintf("class=runaway side %s wrote more than %d frames in one case", sideName[side], maxFramesPerCase)
+		}
 	}
 	switch prop {
 	case "C23":
@@ -181,8 +192,17 @@ func drive(c *hx.Ctx, t *testing.T, prop string, prof Profile) {
 		}
 		c.Case(res.Line, res.Out, oracle, key)
 	}
+	hangs := 0
 	emitStress := func(p StressParams) {
+		if hangs >= 3 {
+			// every further workload would sit out its watchdog as well
+			c.Count("stress-skipped-after-hangs")
+			return
+		}
 		res := RunStress(p, 20*time.Second)
+		if len(res.C25) > 0 {
+			hangs++
+		}
 		oracle := pickStress(prop, res)
 		for k, v := range res.Stats {
 			for i := 0; i < v; i++ {
@@ -217,12 +237,21 @@ func drive(c *hx.Ctx, t *testing.T, prop string, prof Profile) {
 	}
 	nTrace := c.Size(8000, 300000)
 	nStress := c.Size(100, 4000)
+	timeouts := 0
 	for i := 0; i < nTrace; i++ {
+		if timeouts >= 3 {
+			c.Note("trace generation stopped after 3 cases that never finished")
+			break
+		}
 		steps := 6 + c.R.Intn(40)
 		if c.R.Chance(1, 10) {
 			steps = 60 + c.R.Intn(80)
 		}
-		emitTrace(RunTrace(t, c.R, prof, steps, nil))
+		tres := RunTrace(t, c.R, prof, steps, nil)
+		if tres.TimedOut {
+			timeouts++
+		}
+		emitTrace(tres)
 		c.Count("trace")
 		if i%((nTrace/nStress)+1) == 0 {
 			emitStress(stressParams(c.R, prof, c.Thorough()))
